@@ -322,7 +322,8 @@ def result_objects():
     attr = ast.parse('self.a = 1').body[0].targets[0]
     out.append(('AssignedAttribute', Nm.AssignedAttribute(top, attr, None, (1, 5))))
     out.append(('ImportedModule', Md.ImportedModule(sys)))
-    sm = loader.bare_instance(Md.SourceModule)
+    import supp.project as _Pj
+    sm = loader.bare_instance(Md.SourceModule, project=_Pj.Project(['/nonexistent']))
     sm.name, sm.filename, sm.declared_at = 'm', '/x/m.py', (1, 0)
     out.append(('SourceModule', sm))
     out.append(('AdditionalNameWrapper(source module)', Nm.AdditionalNameWrapper(sm, {})))
@@ -599,9 +600,10 @@ def bases_total(run):
             def evaluate(self, node):
                 return self.val
         kobj = Nm.ClassObject(Ctx(None), kscope)
-        sm = loader.bare_instance(Md.SourceModule)
+        import supp.project as _Pj
+        sm = loader.bare_instance(Md.SourceModule, project=_Pj.Project(['/nonexistent']))
         sm.name, sm.filename, sm.declared_at = 'm', '/x/m.py', (1, 0)
-        sm.__dict__['scope'] = top
+        sm.__dict__['_scope'] = top
         values = [('source class', kobj), ('runtime class', Nm.RuntimeName('dict', dict, True)), ('runtime function', Nm.RuntimeName('len', len, True)),
                   ('runtime instance', Nm.RuntimeName('x', 5)), ('source instance', Nm.InstanceValue(Ctx(None), kobj)),
                   ('runtime module', Md.ImportedModule(sys)), ('source module', sm), ('merged value', Nm.CompositeValue([kobj])),
@@ -659,9 +661,10 @@ def value_zoo():
         def evaluate(self, node):
             return None
     kobj = Nm.ClassObject(Ctx(), kscope)
-    sm = loader.bare_instance(Md.SourceModule)
+    import supp.project as _Pj
+    sm = loader.bare_instance(Md.SourceModule, project=_Pj.Project(['/nonexistent']))
     sm.name, sm.filename, sm.declared_at = 'm', '/x/m.py', (1, 0)
-    sm.__dict__['scope'] = top
+    sm.__dict__['_scope'] = top
     attr = ast.parse('self.a = 1').body[0].targets[0]
     mv = Nm.MultiValue(Nm.AssignedAttribute(top, attr, None, (1, 5)))
     return [('ClassObject', kobj), ('RuntimeName(class)', Nm.RuntimeName('dict', dict, True)), ('RuntimeName(function)', Nm.RuntimeName('len', len, True)),
